@@ -53,6 +53,7 @@ type Op struct {
 	FailAt     int              `json:"fail_at,omitempty"`  // the input stream fails after exactly this many bytes
 	FailErr    string           `json:"fail_err,omitempty"`
 	FailWith   bool             `json:"fail_with,omitempty"` // ... together with the last delivered bytes
+	Sibling    bool             `json:"sibling,omitempty"`   // decoy: the other parser is built from the scenario's own declarations, and the program then edits ITS options' public slices
 	Rewrite    bool             `json:"rewrite,omitempty"`   // file read: the file gets the content Data first
 
 	// parse
@@ -319,6 +320,13 @@ func (c *RunCtx) callee(kind, who string, args []string) error {
 	}
 	if simrt.W != nil {
 		simrt.W.Event("callee %s %s fail=%d", kind, who, call.Fail)
+	}
+	if kind == "callback" && c.sc.Decl != nil && c.sc.Decl.CmdHandler == "late-log" && c.b != nil && c.b.P != nil {
+		// the --dry-run idiom: an option's callback installs the CommandHandler while
+		// the line is being parsed; the handler in place at dispatch decides
+		c.b.P.CommandHandler = func(cmd flags.Commander, args []string) error {
+			return cur.callee("handler", commanderName(cmd), args)
+		}
 	}
 	if kind == "callback" && c.sc.CfgIni != nil && strings.Contains(who, "|FLoadConfig(") && c.b != nil && c.b.P != nil && err == nil {
 		// a --config option: the file is read as defaults right here
@@ -595,6 +603,38 @@ func Execute(sc *Scenario, sched *simrt.Schedule) (out *Outcome) {
 }
 
 // decoySpec: a second, unrelated parser of the same program.
+// editSibling changes, through the public fields, the value lists of every
+// option and command of a parser (in place where there is an element, and by
+// appending).
+func editSibling(c *flags.Command) {
+	var walkG func(g *flags.Group)
+	walkG = func(g *flags.Group) {
+		for _, o := range g.Options() {
+			if len(o.Default) > 0 {
+				o.Default[0] = "zz-sibling"
+			}
+			if len(o.Choices) > 0 {
+				o.Choices[0] = "zz-sibling"
+			}
+			o.Default = append(o.Default, "zz-sibling-more")
+			o.Choices = append(o.Choices, "zz-sibling-choice")
+			o.OptionalValue = append(o.OptionalValue, "zz-sibling-optional")
+			o.Description += " (sibling)"
+		}
+		for _, s := range g.Groups() {
+			walkG(s)
+		}
+	}
+	walkG(c.Group)
+	if len(c.Aliases) > 0 {
+		c.Aliases[0] = "zz-sibling"
+	}
+	c.Aliases = append(c.Aliases, "zz-sibling-alias")
+	for _, s := range c.Commands() {
+		editSibling(s)
+	}
+}
+
 func decoySpec() *DeclSpec {
 	return &DeclSpec{App: "decoy", Options: optHelpFlag | optPassDoubleDash,
 		Root: &GroupSpec{Name: "Decoy Options", Opts: []*OptSpec{
@@ -770,6 +810,21 @@ func runOp(w *simrt.World, b *Built, op *Op, res *OpResult) {
 		// scenario's parser produces
 		saved, had := w.Env["GO_FLAGS_COMPLETION"]
 		delete(w.Env, "GO_FLAGS_COMPLETION")
+		if op.Sibling {
+			// a second parser from the very same declarations; what the program does
+			// to that one's options stays with that one
+			sb := Build(cur.sc.Decl)
+			if sb.P != nil && sb.Err == nil {
+				editSibling(sb.P.Command)
+			}
+			if len(keepAlive) <= 300 {
+				keepAlive = append(keepAlive, sb)
+			}
+			if had {
+				w.Env["GO_FLAGS_COMPLETION"] = saved
+			}
+			break
+		}
 		db := Build(decoySpec())
 		if db.P != nil && db.Err == nil {
 			if len(op.Argv) > 0 {
